@@ -65,7 +65,11 @@ type Exchange struct {
 	Subject bool              `json:"ocisubject"`
 	Loc     string            `json:"loc"`
 	UpID    string            `json:"upid"` // upload session id issued by this response
+	Actor   string            `json:"actor,omitempty"` // ActorKey value of the request's context (which call issued it)
 }
+
+// ActorKey is the context key under which a driver names the call that issues a request.
+type ActorKey struct{}
 
 // Corruption asks for one response to be damaged: the Nth response (1-based,
 // counted from when it was armed) to a request matching Method and Route.
@@ -95,6 +99,9 @@ type Registry struct {
 func New(host string, p Profile) *Registry {
 	return &Registry{Host: host, Profile: p, repos: map[string]*repo{}, uploads: map[string]string{}}
 }
+
+// SetReferrers switches the Referrers API (and the OCI-Subject header) on or off.
+func (r *Registry) SetReferrers(on bool) { r.mu.Lock(); r.Profile.Referrers = on; r.mu.Unlock() }
 
 func (r *Registry) Arm(c *Corruption) { r.mu.Lock(); r.corrupt, r.seen = c, 0; r.mu.Unlock() }
 
@@ -156,6 +163,17 @@ func (r *Registry) SeedManifest(repoName, mediaType string, b []byte, tag string
 	r.mu.Lock()
 	defer r.mu.Unlock()
 	r.putManifest(r.repo(repoName), mediaType, b, tag)
+}
+
+// ReplaceTagged stores a manifest under tag and removes the manifest the tag pointed to before (test setup).
+func (r *Registry) ReplaceTagged(repoName, mediaType string, b []byte, tag string) {
+	r.mu.Lock()
+	defer r.mu.Unlock()
+	rp := r.repo(repoName)
+	if old, ok := rp.tags[tag]; ok {
+		delete(rp.manifests, old)
+	}
+	r.putManifest(rp, mediaType, b, tag)
 }
 
 func (r *Registry) putManifest(rp *repo, mediaType string, b []byte, tag string) string {
@@ -222,6 +240,9 @@ func (r *Registry) RoundTrip(req *http.Request) (*http.Response, error) {
 		}
 	}
 	ex.Route, ex.Repo, ex.Ref = route, repoName, ref
+	if a, ok := req.Context().Value(ActorKey{}).(string); ok {
+		ex.Actor = a
+	}
 	if r.Gate != nil {
 		r.Gate(req.Method, route, ref)
 	}
